@@ -302,21 +302,30 @@ def stereo_mol_graph_to_rdmol(
 
 
         elif a_stereo is not None and isinstance(a_stereo, Octahedral):
-            for rd_n in rd_atom.GetNeighbors():
-                mol.RemoveBond(rd_n.GetIdx(), atom_idx)
-
-            for a in (1, 5, 6, 3, 4, 2):
-                a = a_stereo.atoms[a]
-                mol.AddBond(
-                    atom_idx,
-                    map_num_idx_dict[a],
-                )
             rd_atom.SetChiralTag(Chem.ChiralType.CHI_OCTAHEDRAL)
             rd_atom.SetHybridization(Chem.HybridizationType.SP3D2)
-            if a_stereo.parity == 1:
-                rd_atom.SetUnsignedProp("_chiralPermutation", 1)
-            elif a_stereo.parity == -1:
-                rd_atom.SetUnsignedProp("_chiralPermutation", 2)
+            if a_stereo.parity is not None:
+                # permutation labels as read by the importer
+                from stereomolgraph.rdmol2graph import RDMol2StereoMolGraph
+
+                oct_table = (
+                    RDMol2StereoMolGraph._oct_atom_order_permutation_dict
+                )
+                rd_nbr_order = tuple(
+                    [
+                        idx_map_num_dict[nbr.GetIdx()]
+                        for nbr in rd_atom.GetNeighbors()
+                    ]
+                )
+                for val, perm in oct_table.items():
+                    if len(rd_nbr_order) != 6:
+                        break
+                    rd_nbr_perm = tuple([rd_nbr_order[i] for i in perm])
+
+                    # compare modulo the symmetry of the octahedron
+                    if Octahedral((atom, *rd_nbr_perm), 1) == a_stereo:
+                        rd_atom.SetUnsignedProp("_chiralPermutation", val)
+                        break
 
     for b_stereo in (bs for bs in graph.bond_stereo.values() if bs):
         a1, a2 = b_stereo.atoms[2], b_stereo.atoms[3]
